@@ -9,6 +9,7 @@ from pathlib import Path
 from typing import Any, Dict, List, Optional, Tuple
 
 from harness.extract import nondet as x_nondet
+from harness.extract import nondet_seeding as x_seeding
 from harness.lib import scen
 from harness.lib.core import REPO, SRC, VERIF, Ctx, Rng, lean_lock, run_driver
 from harness.rigs import envrig, xproc
@@ -40,6 +41,11 @@ MANIFEST = {
     "design_ref": "5/C03",
 }
 MODULES = ["PrimaiteModel.Props.C03"]
+# basis of every reason of the discharge table (mirrors `Discharge.basis` in Lemmas/NondetDischarge.lean; the split itself is the
+# theorem C03_discharge_counts)
+BASIS = {"readingLenF9": "openFinding", **{r: "mechanical" for r in ("fixedLenSecret", "clockNotRead", "seededRng", "seeding", "unseededByConfig",
+                                                                     "offline", "setDeclCovered", "setEmpty", "setSingleton")},
+         **{r: "trusted" for r in ("hashNotIterated", "setMembershipOnly", "setIntHash", "idTextEqOnly")}}
 EXE = "drv_c03"
 SKIP = {"bad_primaite_session", "no_nodes_links_agents_network", "eval_only_primaite_session", "multi_agent_session", "data_manipulation_marl"}
 QUICK = ["nmap_ping_scan_red_agent_config", "data_manipulation", "nmap_port_scan_red_agent_config"]
@@ -80,45 +86,197 @@ def _n_actions(cfg: Dict) -> int:
     return max(1, len((pa or {}).get("action_space", {}).get("action_map") or {0: 0}))
 
 
-def gen_ops(rng: Rng, n: int, k: int) -> List[Any]:
-    """episode 0 (configured seed) | reset(s) + B | reset(s) + the same B again | reset(None) + C"""
-    s = rng.below(2 ** 31)
-    a = [rng.below(n) for _ in range(k)]
+SEED_BIG = 2 ** 32 - 1  # the largest value numpy's global generator accepts
+
+
+def seed_class(s, cfg_seed) -> str:
+    if s is None:
+        return "none"
+    if s == 0:
+        return "zero"
+    if s == 1:
+        return "one"
+    if s == cfg_seed:
+        return "configured"
+    if s >= 2 ** 31:
+        return "large"
+    return "other"
+
+
+def gen_ops(rng: Rng, n: int, k: int, cfg_seed: int, extra_random: int = 0) -> List[Any]:
+    """episode 0 (configured seed c, actions B) | reset(c) B | reset(0) B | reset(0) B | reset(1) B | reset(BIG) B | reset(1) B |
+    reset(BIG) B | [reset(r) B | reset(r') B | reset(r) B …] | reset(None) C.   Every seed value is played twice with the SAME actions
+    after DIFFERENT histories (different numbers of draws consumed), so that "did not re-seed" is observable; all seeded episodes use the
+    same actions, so that episodes with different seeds can be told apart (non-vacuity)."""
     b = [rng.below(n) for _ in range(k)]
     c = [rng.below(n) for _ in range(max(2, k // 2))]
-    return a + [["reset", s]] + b + [["reset", s]] + b + [["reset", None]] + c
+    plan: List[Any] = [cfg_seed, 0, 0, 1, SEED_BIG, 1, SEED_BIG]
+    rs = [rng.range(2, 2 ** 31 - 1) for _ in range(extra_random)]
+    plan += rs + rs[::-1]
+    ops: List[Any] = list(b)
+    for sd in plan:
+        ops += [["reset", sd]] + b
+    return ops + [["reset", None]] + c
 
 
-def cases(ctx: Ctx):
-    shipped = scen.shipped()
-    names = [n for n in QUICK if n in shipped] if not ctx.thorough else [n for n in shipped if n not in SKIP]
-    rng = ctx.rng.fork("xproc")
-    for name in names:
-        try:
-            cfg = scen.load_cfg(shipped[name])
-        except Exception:
+def reseed_pairs(ops: List[Any], cfg_seed) -> List[Tuple[int, int, Any]]:
+    """(episode i, episode j, seed): both were started with the same seed and played the same actions (episode 0 = construction
+    with the configured seed)."""
+    eps: List[Tuple[Any, List[Any]]] = [(cfg_seed, [])]
+    for o in ops:
+        if isinstance(o, list) and o and o[0] == "reset":
+            eps.append((o[1], []))
+        else:
+            eps[-1][1].append(o)
+    out = []
+    first: Dict[Any, int] = {}
+    for i, (sd, acts) in enumerate(eps):
+        if sd is None:
             continue
-        cfg = _small_scan(envrig.with_proxy(cfg))
-        cfg.setdefault("game", {})
-        if cfg["game"].get("seed") in (None, -1):
-            cfg["game"]["seed"] = rng.range(0, 10 ** 6)  # the property speaks of a CONFIGURED seed
-        yield name, "shipped-map", cfg, gen_ops(rng.fork(name), _n_actions(cfg), ctx.scale(8, 25))
-        if ctx.thorough or name == "data_manipulation":
+        key = (sd, tuple(acts))
+        if key in first:
+            out.append((first[key], i, sd))
+        else:
+            first[key] = i
+    return out
+
+
+# ------------------------------------------------------------------------------------------------ scenario families
+UC7_START_NODES = ["ST_PROJ-A-PRV-PC-1", "ST_PROJ-B-PRV-PC-2", "ST_PROJ-C-PRV-PC-3"]
+
+
+def tap_variant(cfg: Dict, rng: Rng) -> Dict:
+    """A uc7 scenario whose threat-actor agent has STOCHASTIC settings: a `starting_nodes` list of >= 2 hosts (the shipped files
+    leave it empty), a `target_ips` list, variance > 0 and stage probabilities < 1 - so that every draw site of abstract_tap.py /
+    TAP001.py / TAP003.py is exercised."""
+    cfg = copy.deepcopy(cfg)
+    hosts = {n.get("hostname"): n for n in cfg["simulation"]["network"]["nodes"] if isinstance(n, dict)}
+    for a in cfg.get("agents", []):
+        if a.get("type") not in ("tap-001", "tap-003"):
+            continue
+        st = a.setdefault("agent_settings", {})
+        cands = [h for h in UC7_START_NODES if h in hosts] or [st.get("default_starting_node")]
+        nodes = rng.shuffle(cands)[:rng.range(2, max(2, len(cands)))]
+        if rng.chance(1, 3):
+            nodes.append(nodes[0])  # a host listed twice
+        st["starting_nodes"] = nodes
+        st["start_step"] = rng.range(1, 2)
+        st["frequency"] = rng.range(3, 4)
+        st["variance"] = rng.range(1, 2)
+        st["repeat_kill_chain"] = True
+        kc = st.get("kill_chain") or {}
+        for stage, opts in kc.items():
+            if isinstance(opts, dict) and "probability" in opts:
+                opts["probability"] = rng.choice([0.5, 0.7, 0.9])
+        if a["type"] == "tap-001":
+            ips = [st.get("default_target_ip")] + [hosts[h]["ip_address"] for h in ("ST_DATA-PRV-SRV-DB", "ST_DATA-PRV-SRV-STORAGE", "ST_DMZ-PUB-SRV-WEB")
+                                                   if h in hosts and "ip_address" in hosts[h]]
+            ips = [i for i in dict.fromkeys(ips) if i]
+            if len(ips) >= 2:
+                st["target_ips"] = rng.shuffle(ips)[:rng.range(2, len(ips))]
+    return cfg
+
+
+def generated_variant(rng: Rng) -> Dict:
+    """A generated routed/dmz scenario (harness/gen/scenario.py: database server + clients, web server + browsers, green
+    probabilistic users, periodic and data-manipulation attackers) plus a RANDOM agent and a second periodic agent whose action maps
+    hold nmap ping / port scans of the LANs, database and web requests."""
+    from harness.gen import scenario as gscen
+    fam = rng.choice(["routed", "dmz", "routed"])
+    cfg = gscen.gen_scenario(rng, size=1, family=fam, shadowing=False, off_nodes=False)
+    hosts = gscen.hosts_of(cfg)
+    clients = [h for h in hosts if h["type"] == "computer"] or hosts
+    nets = sorted({h["ip_address"].rsplit(".", 1)[0] + ".0/28" for h in hosts})
+    src = clients[0]["hostname"]
+    amap: Dict[int, Dict] = {0: {"action": "do-nothing", "options": {}}}
+    for net in nets[:3]:
+        amap[len(amap)] = {"action": "node-nmap-ping-scan", "options": {"source_node": src, "target_ip_address": net, "show": False}}
+        amap[len(amap)] = {"action": "node-nmap-port-scan", "options": {"source_node": src, "target_ip_address": net, "target_port": [80, 5432, 53, 21],
+                                                                        "target_protocol": ["tcp", "udp"], "show": False}}
+    amap[len(amap)] = {"action": "node-network-service-recon", "options": {"source_node": src, "target_ip_address": nets[0], "target_port": 80,
+                                                                           "target_protocol": "tcp", "show": False}}
+    for h in clients[:3]:
+        for app in ("web-browser", "database-client"):
+            if app == "web-browser" or any(a["type"] == app for a in h.get("applications", [])):
+                amap[len(amap)] = {"action": "node-application-execute", "options": {"node_name": h["hostname"], "application_name": app}}
+    cfg["agents"].append({"ref": "verif_random_user", "team": "GREEN", "type": "random-agent", "action_space": {"action_map": amap},
+                          "reward_function": {"reward_components": [{"type": "dummy", "weight": 1.0}]}})
+    cfg["agents"].append({"ref": "verif_periodic", "team": "RED", "type": "periodic-agent",
+                          "agent_settings": {"possible_start_nodes": [h["hostname"] for h in clients[:3]], "target_application": "web-browser",
+                                             "start_step": 1, "start_variance": 1, "frequency": 3, "variance": 1}})
+    pa = envrig.proxy_agent_cfg(cfg)
+    if pa is not None:  # the RL agent can scan as well
+        m = pa["action_space"]["action_map"]
+        for e in list(amap.values())[1:4]:
+            m[max(m) + 1] = copy.deepcopy(e)
+    cfg["game"]["max_episode_length"] = 64
+    return cfg
+
+
+def cases(ctx: Ctx, search: bool = False):
+    """(name, variant, cfg, ops). `search` = the extra family run when an inventory obligation is broken."""
+    shipped = scen.shipped()
+    rng = ctx.rng.fork("xproc" + ("-search" if search else ""))
+    if not search:
+        names = [n for n in QUICK if n in shipped] if not ctx.thorough else [n for n in shipped if n not in SKIP]
+        for name in names:
             try:
-                aug = envrig.augmented(cfg, rng.fork(name + "-aug"), ctx.scale(40, 120))
-            except Exception as e:
-                ctx.notes.append(f"{name}: generated action map not built: {type(e).__name__}: {str(e)[:100]}")
-                aug = None
-            if aug is not None:
-                aug = _small_scan(aug)
-                yield name, "generated-map", aug, gen_ops(rng.fork(name + "-augops"), _n_actions(aug), ctx.scale(10, 40))
+                cfg = scen.load_cfg(shipped[name])
+            except Exception:
+                continue
+            cfg = _small_scan(envrig.with_proxy(cfg))
+            cfg.setdefault("game", {})
+            if cfg["game"].get("seed") in (None, -1):
+                cfg["game"]["seed"] = rng.range(2, 10 ** 6)  # the property speaks of a CONFIGURED seed
+            stochastic = name in ("data_manipulation",) or ctx.thorough
+            k = ctx.scale(6, 20) if stochastic else ctx.scale(4, 12)
+            yield name, "shipped-map", cfg, gen_ops(rng.fork(name), _n_actions(cfg), k, cfg["game"]["seed"], ctx.scale(0, 2))
+            if ctx.thorough or name == "data_manipulation":
+                try:
+                    aug = envrig.augmented(cfg, rng.fork(name + "-aug"), ctx.scale(40, 120))
+                except Exception as e:
+                    ctx.notes.append(f"{name}: generated action map not built: {type(e).__name__}: {str(e)[:100]}")
+                    aug = None
+                if aug is not None:
+                    aug = _small_scan(aug)
+                    yield name, "generated-map", aug, gen_ops(rng.fork(name + "-augops"), _n_actions(aug), ctx.scale(8, 30), aug["game"]["seed"],
+                                                              ctx.scale(0, 1))
+    # threat-actor agents with stochastic settings (uc7), and a generated scenario with a random agent + nmap + database + web
+    n_tap = ctx.scale(1, 3) if not search else 2
+    for name in ("uc7_config", "uc7_config_tap003"):
+        if name not in shipped:
+            continue
+        base = envrig.with_proxy(scen.load_cfg(shipped[name]))
+        for i in range(n_tap):
+            r = rng.fork(f"{name}-tap{i}")
+            cfg = tap_variant(base, r)
+            cfg["game"]["seed"] = r.range(2, 10 ** 6)
+            yield name, f"stochastic-tap-{i}", cfg, gen_ops(r, _n_actions(cfg), ctx.scale(12, 30), cfg["game"]["seed"], ctx.scale(0, 1))
+    for i in range(ctx.scale(1, 6) if not search else 2):
+        r = rng.fork(f"generated-{i}")
+        try:
+            cfg = generated_variant(r)
+            scen.make_game(cfg)
+        except Exception as e:
+            ctx.notes.append(f"generated scenario {i} not built: {type(e).__name__}: {str(e)[:160]}")
+            continue
+        cfg["game"]["seed"] = r.range(2, 10 ** 6)
+        yield "generated", f"random-agent+nmap+db+web-{i}", cfg, gen_ops(r, _n_actions(cfg), ctx.scale(8, 24), cfg["game"]["seed"], ctx.scale(0, 1))
 
 
-def variants(ctx: Ctx, rng: Rng) -> List[Dict]:
-    v = [{"hashseed": 1, "loud": False}, {"hashseed": rng.range(2, 4_000_000_000), "loud": True}, {"hashseed": rng.range(2, 4_000_000_000), "loud": False}]
+def variants(ctx: Ctx, rng: Rng, cfg: Optional[Dict] = None, n_extra: int = 0) -> Tuple[List[Dict], Dict]:
+    """The interpreters of a case: PYTHONHASHSEED values chosen so that the scenario's string vocabularies come out of a set in
+    pairwise different orders (xproc.pick_hashseeds), logging fully on / fully off."""
+    n = 3 + (2 if ctx.thorough else 0) + n_extra
+    cands = [1] + [rng.range(2, 4_000_000_000) for _ in range(ctx.scale(7, 11) + 2 * n_extra)]
     if ctx.thorough:
-        v += [{"hashseed": 0, "loud": True}, {"hashseed": rng.range(2, 4_000_000_000), "loud": True}]
-    return v
+        cands.insert(1, 0)  # hashing disabled
+    info: Dict[str, int] = {}
+    if cfg is not None:
+        seeds, info = xproc.pick_hashseeds(xproc.string_vocabularies(cfg), n, cands)
+    else:
+        seeds = cands[:n]
+    return [{"hashseed": hs, "loud": (i % 2 == 1)} for i, hs in enumerate(seeds)], info
 
 
 def episodes_of(lines: List[str]) -> List[List[str]]:
@@ -129,6 +287,59 @@ def episodes_of(lines: List[str]) -> List[List[str]]:
             eps.append([])
         eps[-1].append(l)
     return eps
+
+
+def _head_fields(line: str) -> Dict:
+    try:
+        j = json.loads(line)
+        return {"rng": j.get("rng"), "obs": j.get("obs")}
+    except Exception:
+        return {"unparsable": line[:80]}
+
+
+def reseed_oracle(name: str, variant: str, cfg: Dict, ops: List[Any], base_v: Dict, base: List[str]) -> Tuple[List[dict], Dict[str, int]]:
+    """"Re-seeding on reset reproduces the same episode again": every two episodes of ONE process that were started with the same
+    seed (construction with the configured seed counts) and played the same actions must be identical line for line - the generator
+    digests and the first observation on the reset line, every step line, the complete histories."""
+    cfg_seed = (cfg.get("game") or {}).get("seed")
+    eps = episodes_of(base)
+    viol: List[dict] = []
+    cnt: Dict[str, int] = {}
+    pairs = reseed_pairs(ops, cfg_seed)
+    for i, j, sd in pairs:
+        if j >= len(eps) or i >= len(eps) or len(eps[i]) != len(eps[j]):
+            cnt["reseed:pair-not-comparable"] = cnt.get("reseed:pair-not-comparable", 0) + 1
+            continue
+        cls = seed_class(sd, cfg_seed) if i > 0 else "configured"
+        cnt["reseed:pairs:" + cls] = cnt.get("reseed:pairs:" + cls, 0) + 1
+        cnt["reseed:lines-compared"] = cnt.get("reseed:lines-compared", 0) + len(eps[i])
+        a, b = list(eps[i]), list(eps[j])
+        ha, hb = _head_fields(a[0]), _head_fields(b[0])
+        d = None
+        if ha != hb:
+            d, desc = 0, {"part": "rng" if ha.get("rng") != hb.get("rng") else "obs"}
+        else:
+            dd = xproc.first_diff(a[1:], b[1:])
+            if dd is not None:
+                d = dd + 1
+                desc = xproc.describe_diff(a[d], b[d])
+        if d is not None:
+            sig = {"kind": "reseed-diff", "seed_class": cls, **{k: desc[k] for k in ("part", "action", "field") if k in desc}}
+            viol.append({"sig": sig, "what": f"{name}/{variant}: episode {j} was started with reset(seed={sd}) and played the same actions as episode {i} "
+                                            f"(started with the same seed{' by construction' if i == 0 else ''}), but line {d} of the episode differs: {desc}; "
+                                            f"{_excerpt(a[d], b[d])}",
+                         "replay": {"scenario": name, "variant": variant, "cfg": cfg, "ops": ops, "variants": [base_v], "reseed": True,
+                                    "episodes": [i, j], "seed": sd, "a": a[d][:3000], "b": b[d][:3000]}})
+            break
+    # non-vacuity: episodes started with DIFFERENT seeds (same actions) that can be told apart
+    by_seed: Dict[Any, List[str]] = {}
+    for i, j, sd in pairs:
+        if i < len(eps):
+            by_seed.setdefault(sd, [l for l in eps[i][1:] if l.startswith('{"op"')])  # step lines only (no generator digests)
+    vals = list(by_seed.values())
+    cnt["reseed:seed-values"] = len(vals)
+    cnt["reseed:seed-values-distinguishable"] = len({json.dumps(v) for v in vals})
+    return viol, cnt
 
 
 def check_case(name: str, variant: str, cfg: Dict, ops: List[Any], vs: List[Dict]) -> Tuple[List[dict], Dict[str, int], List[str]]:
@@ -157,17 +368,9 @@ def check_case(name: str, variant: str, cfg: Dict, ops: List[Any], vs: List[Dict
                      "replay": {"scenario": name, "variant": variant, "cfg": cfg, "ops": ops, "variants": [base_v, v], "first_diff": d,
                                 "a": a[:4000], "b": b[:4000], "stderr": err[-500:]}})
         break
-    # re-seeding: episodes 1 and 2 were started with reset(seed=s) and played the same actions
-    eps = episodes_of(base)
-    if len(eps) >= 3 and len(eps[1]) == len(eps[2]):
-        d = xproc.first_diff(eps[1], eps[2])
-        if d is not None:
-            desc = xproc.describe_diff(eps[1][d], eps[2][d])
-            sig = {"kind": "reseed-diff", **{k: desc[k] for k in ("part", "action", "field") if k in desc}}
-            viol.append({"sig": sig, "what": f"{name}/{variant}: the episode after reset(seed=s) is not reproduced by a second reset(seed=s): "
-                                            f"line {d} of the episode: {desc}; {_excerpt(eps[1][d], eps[2][d])}",
-                         "replay": {"scenario": name, "variant": variant, "cfg": cfg, "ops": ops, "variants": [base_v], "reseed": True,
-                                    "a": eps[1][d][:4000], "b": eps[2][d][:4000]}})
+    rv, rc = reseed_oracle(name, variant, cfg, ops, base_v, base)
+    viol += rv
+    cnt.update(rc)
     return viol, cnt, base
 
 
@@ -293,6 +496,25 @@ def site_rig(ctx: Ctx):
         lines.append(sites.canon_line(o))
         impl.append(sites.canon_impl(o, sites.fresh_ids(rng)))
         meta.append({"site": "canon", "outs": o})
+    # the seeding path: set_random_seed(x, g) and env.reset(seed=x) for every x of the family, against the model of the code's shape
+    env = scen.make_env(_seed_env_cfg())
+    try:
+        for x in sites.SEED_ARGS + [rng.range(3, 2 ** 31) for _ in range(ctx.scale(2, 20))]:
+            for g in (False, True):
+                xs = "none" if x is None else str(x)
+                lines.append(f"seedact set {int(g)} {xs}")
+                impl.append(sites.seedact_set_impl(x, g))
+                meta.append({"site": "seedact", "fn": "set_random_seed", "seed": x, "generate_seed_value": g})
+                lines.append(f"seedact reset {int(g)} {xs}")
+                impl.append(sites.seedact_reset_impl(env, x, g))
+                meta.append({"site": "seedact", "fn": "reset", "seed": x, "generate_seed_value": g})
+    finally:
+        env.close()
+    import secrets as _secrets
+    for nbytes in list(range(0, 40)) + [64, 100]:
+        lines.append(f"toklen {nbytes}")
+        impl.append(str(len(_secrets.token_urlsafe(nbytes))))
+        meta.append({"site": "toklen", "nbytes": nbytes})
     model = run_driver(EXE, lines)
     bad = 0
     for q, a, b, m in zip(lines, impl, model, meta):
@@ -304,17 +526,39 @@ def site_rig(ctx: Ctx):
             raise RuntimeError(f"driver rejected {q!r}")
         if a != b:
             bad += 1
-            ctx.violation({"kind": "model-vs-impl", "site": site}, f"consumer `{site}`: real code gives {a!r}, proved model {b!r} on `{q}`",
+            sig = {"kind": "model-vs-impl", "site": site}
+            if site == "seedact":
+                sig.update(fn=m["fn"], seed_class=seed_class(m["seed"], None) if m["seed"] is None or m["seed"] >= 0 else "negative")
+            ctx.violation(sig, f"`{site}`: real code gives {a!r}, proved model {b!r} on `{q}`" + (
+                f" ({m['fn']}(seed={m['seed']!r}), generate_seed_value={m['generate_seed_value']})" if site == "seedact" else ""),
                           {"site_case": m, "line": q, "impl": a, "model": b})
     if len(model) != len(impl):
         bad += 1
-    ctx.oblige("rig:consumer models agree with nmap / from_config / topological_sort / the canonicaliser", "correspondence", bad == 0,
+    ctx.oblige("rig:consumer and seeding-path models agree with nmap / from_config / topological_sort / set_random_seed / reset / the canonicaliser", "correspondence", bad == 0,
                f"{bad} of {len(lines)} lines differ")
     for q, b in list(zip(lines, model))[:3]:
         ctx.sample({"driver_line": q[:120], "answer": b[:120]}, cap=8)
 
 
+def _seed_env_cfg() -> Dict:
+    shipped = scen.shipped()
+    cfg = scen.load_cfg(shipped["data_manipulation"])
+    cfg.setdefault("game", {})["seed"] = 11
+    return cfg
+
+
 def _site_impl(c: dict, game, lookup) -> str:
+    if c["site"] == "seedact":
+        if c["fn"] == "set_random_seed":
+            return sites.seedact_set_impl(c["seed"], c["generate_seed_value"])
+        env = scen.make_env(_seed_env_cfg())
+        try:
+            return sites.seedact_reset_impl(env, c["seed"], c["generate_seed_value"])
+        finally:
+            env.close()
+    if c["site"] == "toklen":
+        import secrets as _secrets
+        return str(len(_secrets.token_urlsafe(c["nbytes"])))
     if c["site"] == "topo":
         return " ".join(map(str, sites.topo_impl([(k, v) for k, v in c["graph"]])))
     if c["site"] == "ports":
@@ -399,62 +643,34 @@ def replay(rec: dict) -> bool:
     if not base:
         return False
     if rp.get("reseed"):
-        eps = episodes_of(base)
-        return len(eps) >= 3 and xproc.first_diff(eps[1], eps[2]) is None
+        viol, _ = reseed_oracle(rp.get("scenario", "?"), rp.get("variant", "?"), rp["cfg"], rp["ops"], rp["variants"][0], base)
+        return not viol
     return all(xproc.first_diff(base, lines) is None for _, lines, _ in res[1:])
 
 
-def run(ctx: Ctx):
-    with lean_lock():
-        ok_x = ctx.extract("Nondet", x_nondet.emit)
-        ctx.prove(MODULES, exes=[EXE], leanchecker=ctx.thorough)
-    # -- the inventory, as seen by the extractor and by an independent textual count
-    if ok_x:
-        inv = x_nondet.collect()
-        kinds: Dict[str, int] = {}
-        for s in inv:
-            kinds[s[2]] = kinds.get(s[2], 0) + 1
-            ctx.count("inventory:" + s[2])
-        raw = raw_counts()
-        agree = all(raw[k] == kinds.get(k, 0) for k in raw)
-        ctx.oblige("extract:Nondet agrees with an independent textual count of uuid/secrets/clock/hash()/id() calls", "extractor", agree,
-                   f"textual {raw} vs inventory { {k: kinds.get(k, 0) for k in raw} }")
-        ctx.cov["inventory"] = {"sites": len(inv), "by_kind": kinds, "set_uses_not_listed": x_nondet.stats()}
-        table = (VERIF / "lean" / "PrimaiteModel" / "Lemmas" / "NondetDischarge.lean").read_text()
-        reasons = re.findall(r"⟩, \.(\w+)\)", table)
-        by_reading = {"fixedLenSecret", "clockNotRead", "unseededByConfig", "hashNotIterated", "offline", "setMembershipOnly", "setIntHash",
-                      "setCycleCheck", "setDeclCovered", "seeding"}
-        ctx.cov["discharges"] = {"total": len(reasons), "by_lemma": sum(1 for r in reasons if r not in by_reading and r != "readingLenF9"),
-                                 "by_reading": sum(1 for r in reasons if r in by_reading),
-                                 "open_finding_F9": sum(1 for r in reasons if r == "readingLenF9")}
-    ctx.cov["rule"] = ("cross-process cases = (scenario, action map, operation list = episode with the configured seed | reset(s) + B | reset(s) + B "
-                       "again | reset() + C) x 3-5 fresh interpreters (distinct PYTHONHASHSEED, logging all on / all off); every compared line "
-                       "(one per step/reset, plus complete histories per episode) is one evaluation; non-trivial = step lines whose RL action is "
-                       "not do-nothing or in which some scripted agent acted; component cases = one driver line each (non-trivial = at least two "
-                       "elements); distinct by canonical JSON")
-    # -- corpus first: the F-8 witness must no longer differ
-    site_rig(ctx)
-    probe_rig(ctx)
-    all_cases = []
-    for f in sorted((VERIF / "corpus" / "C03").glob("xproc_*.json")):
-        c = json.loads(f.read_text())
-        shipped = scen.shipped()
-        cfg = _small_scan(envrig.with_proxy(scen.load_cfg(shipped[c["scenario"]]))) if "scenario" in c else c["cfg"]
-        cfg.setdefault("game", {}).setdefault("seed", c.get("seed", 7))
-        all_cases.append(("corpus:" + f.name, c.get("variant", "-"), cfg, c["ops"], c["variants"]))
-    vr = ctx.rng.fork("variants")
-    for name, variant, cfg, ops in cases(ctx):
-        all_cases.append((name, variant, cfg, ops, variants(ctx, vr)))
+def table_sites() -> List[Tuple[str, str, str, str, int]]:
+    """The sites of the COMMITTED discharge table (parsed from the Lean source), to tell which sites of the current tree are new."""
+    txt = (VERIF / "lean" / "PrimaiteModel" / "Lemmas" / "NondetDischarge.lean").read_text()
+    out = []
+    for m in re.finditer(r'\(⟨"((?:[^"\\]|\\.)*)", "((?:[^"\\]|\\.)*)", \.(\w+), "((?:[^"\\]|\\.)*)", (\d+)⟩, \.(\w+)\)', txt):
+        out.append((m.group(1), m.group(2), m.group(3), m.group(4), int(m.group(5))))
+    return out
+
+
+def run_cases(ctx: Ctx, all_cases, tag: str = "xproc") -> int:
+    """Run (name, variant, cfg, ops, variants) cases in a small pool; record evidence; returns the number of cases without violation."""
     agree = 0
     with cf.ThreadPoolExecutor(ctx.scale(4, 5)) as ex:
-        f9_future = ex.submit(f9_compute)  # the known finding is replayed alongside
         futs = [(c, ex.submit(check_case, *c)) for c in all_cases]
         for c, fu in futs:
             name, variant, cfg, ops, vs = c
             viol, cnt, base = fu.result()
-            ctx.count("xproc:cases")
-            ctx.count("xproc:workers", cnt["workers"])
-            ctx.count("xproc:case-ended-by-exception", cnt["raised"])
+            ctx.count(f"{tag}:cases")
+            ctx.count(f"{tag}:workers", cnt["workers"])
+            ctx.count(f"{tag}:case-ended-by-exception", cnt["raised"])
+            for k, v in cnt.items():
+                if k.startswith("reseed:"):
+                    ctx.count(k, v)
             ctx.cov["traces_validated_against_impl"] += cnt["workers"]
             for i, l in enumerate(base):
                 nontrivial = '"op": 0' not in l[:12] or '"st": "success", "d": {"' in l
@@ -462,13 +678,101 @@ def run(ctx: Ctx):
             for l in base:
                 for m in re.finditer(r'"a": "([\w-]+)"', l[:20000] if l.startswith('{"op"') else ""):
                     ctx.count("action:" + m.group(1))
+            agents = {}
+            try:
+                agents = {a["ref"]: a.get("type") for a in cfg.get("agents", [])}
+            except Exception:
+                pass
+            for t in set(agents.values()):
+                ctx.count(f"{tag}:cases-with-agent-type:{t}")
             if not viol:
                 agree += 1
                 ctx.sample({"scenario": name, "variant": variant, "ops": ops[:14], "processes": vs, "lines": len(base),
-                            "line1": base[1][:300] if len(base) > 1 else None}, cap=8)
+                            "reseed": {k: v for k, v in cnt.items() if k.startswith("reseed:")},
+                            "line1": base[1][:300] if len(base) > 1 else None}, cap=10)
             for v in viol:
                 ctx.violation(v["sig"], v["what"], v["replay"])
-    ctx.oblige("rig:R-env identical canonical trajectories across processes and across re-seeded episodes", "correspondence",
-               agree == len(all_cases), f"{len(all_cases) - agree} of {len(all_cases)} cases differ")
+    return agree
+
+
+def run(ctx: Ctx):
+    with lean_lock():
+        ok_x = ctx.extract("Nondet", x_nondet.emit)
+        ok_s = ctx.extract("NondetSeeding", x_seeding.emit)
+        proved = ctx.prove(MODULES, exes=[EXE], leanchecker=ctx.thorough)
+    # -- the inventory, as seen by the extractor and by an independent textual count
+    new_sites: List[Tuple] = []
+    if ok_x:
+        rows = x_nondet.collect_with_facts()
+        inv = [r[:5] for r in rows]
+        kinds: Dict[str, int] = {}
+        for s in inv:
+            kinds[s[2]] = kinds.get(s[2], 0) + 1
+            ctx.count("inventory:" + s[2])
+        for r in rows:
+            ctx.count("fact:" + r[5].split()[0].lstrip("."))
+        raw = raw_counts()
+        agree = all(raw[k] == kinds.get(k, 0) for k in raw)
+        ctx.oblige("extract:Nondet agrees with an independent textual count of uuid/secrets/clock/hash()/id() calls", "extractor", agree,
+                   f"textual {raw} vs inventory { {k: kinds.get(k, 0) for k in raw} }")
+        ctx.cov["inventory"] = {"sites": len(inv), "by_kind": kinds, "set_uses_not_listed": x_nondet.stats()}
+        committed = table_sites()
+        new_sites = [s for s in inv if s not in committed]
+        gone = [s for s in committed if s not in inv]
+        ctx.cov["inventory"]["new_sites"] = [list(s) for s in new_sites]
+        ctx.cov["inventory"]["vanished_sites"] = [list(s) for s in gone]
+        table = (VERIF / "lean" / "PrimaiteModel" / "Lemmas" / "NondetDischarge.lean").read_text()
+        reasons = re.findall(r"⟩, \.(\w+)\)", table)
+        ctx.cov["discharges"] = {"total": len(reasons), **{b: sum(1 for r in reasons if BASIS.get(r, "lemma") == b)
+                                                           for b in ("lemma", "mechanical", "trusted", "openFinding")},
+                                 "by_reading_only": 0}
+    ctx.cov["rule"] = ("cross-process cases = (scenario, action map, operation list = episode with the configured seed c | reset(c) B | reset(0) B | "
+                       "reset(0) B | reset(1) B | reset(2^32-1) B | reset(1) B | reset(2^32-1) B | … | reset() C) x 3-5 fresh interpreters (PYTHONHASHSEED "
+                       "values chosen so that the scenario's string vocabularies leave a set in pairwise different orders; logging all on / all off); "
+                       "every compared line (one per step/reset, plus complete histories and generator digests per episode) is one evaluation; "
+                       "non-trivial = step lines whose RL action is not do-nothing or in which some scripted agent acted; component cases = one driver "
+                       "line each (non-trivial = at least two elements); distinct by canonical JSON")
+    # -- corpus first: the F-8 witness must no longer differ
+    site_rig(ctx)
+    probe_rig(ctx)
+    all_cases = []
+    shipped = scen.shipped()
+    for f in sorted((VERIF / "corpus" / "C03").glob("xproc_*.json")):
+        c = json.loads(f.read_text())
+        cfg = _small_scan(envrig.with_proxy(scen.load_cfg(shipped[c["scenario"]]))) if "scenario" in c else c["cfg"]
+        cfg.setdefault("game", {}).setdefault("seed", c.get("seed", 7))
+        all_cases.append(("corpus:" + f.name, c.get("variant", "-"), cfg, c["ops"], c["variants"]))
+    vr = ctx.rng.fork("variants")
+    hs_info: Dict[str, int] = {"vocabularies": 0, "distinguished": 0, "pairwise_all_differ": 0}
+    for name, variant, cfg, ops in cases(ctx):
+        vs, info = variants(ctx, vr, cfg)
+        for k in hs_info:
+            hs_info[k] += info.get(k, 0)
+        all_cases.append((name, variant, cfg, ops, vs))
+    ctx.cov["hashseed_selection"] = hs_info
+    with cf.ThreadPoolExecutor(1) as ex0:
+        f9_future = ex0.submit(f9_compute)  # the known finding is replayed alongside
+        agree = run_cases(ctx, all_cases)
+        f9_results = f9_future.result()
+    ctx.oblige("rig:R-env identical canonical trajectories across processes", "correspondence",
+               not any(v["sig"].get("kind") in ("cross-process-diff", "worker-produced-nothing") for v in ctx.violations),
+               f"{len(all_cases) - agree} of {len(all_cases)} cases have a violation")
+    n_pairs = sum(v for k, v in ctx.hist.items() if k.startswith("reseed:pairs:"))
+    ctx.oblige("oracle:re-seeding on reset reproduces the same episode (every seed class: configured / 0 / 1 / large)", "correspondence",
+               not any(v["sig"].get("kind") == "reseed-diff" for v in ctx.violations) and n_pairs > 0
+               and all(ctx.hist.get("reseed:pairs:" + c, 0) > 0 for c in ("configured", "zero", "one", "large")),
+               f"{n_pairs} same-seed episode pairs compared")
+    ctx.cov["reseed_oracle"] = {k[7:]: v for k, v in ctx.hist.items() if k.startswith("reseed:")}
+    # -- search: a broken inventory / seeding obligation without a concrete input so far -> drive the code of the new sites harder
+    unlisted = [v for v in ctx.violations if v["sig"].get("kind") != "frame-size-depends-on-unseeded-text-length"]
+    if (not proved or new_sites) and not unlisted:
+        extra = []
+        sr = ctx.rng.fork("search-variants")
+        for name, variant, cfg, ops in cases(ctx, search=True):
+            vs, _ = variants(ctx, sr, cfg, n_extra=2)
+            extra.append((name, "search:" + variant, cfg, ops, vs))
+        ctx.notes.append(f"search: {len(new_sites)} site(s) not in the committed table ({[s[:3] for s in new_sites][:4]}); "
+                         f"ran {len(extra)} further cases with 5 interpreters each")
+        run_cases(ctx, extra, tag="search")
     # -- known finding, replayed on the implementation
-    f9_record(ctx, f9_future.result())
+    f9_record(ctx, f9_results)
